@@ -38,25 +38,18 @@ def install_decoder_limits():
     if _installed:
         return
     _installed = True
-    sh = _mod("vc2_conformance.decoder.sequence_header")
     ps = _mod("vc2_conformance.decoder.picture_syntax")
     fs = _mod("vc2_conformance.decoder.fragment_syntax")
 
-    real_scp = sh.set_coding_parameters
+    real_sp = ps.slice_parameters
 
-    def set_coding_parameters(state, video_parameters):
-        real_scp(state, video_parameters)
+    def slice_parameters(state):
+        # (checked here rather than at the sequence header: header-only streams of any declared size are cheap)
         lw, lh = state["luma_width"], state["luma_height"]
         if lw * lh > LIMITS["max_luma_area"] or lw > LIMITS["max_dim"] or lh > LIMITS["max_dim"]:
             raise OutOfScope("picture %dx%d" % (lw, lh))
         if state["luma_depth"] > LIMITS["max_depth_bits"] or state["color_diff_depth"] > LIMITS["max_depth_bits"]:
             raise OutOfScope("depth")
-
-    sh.set_coding_parameters = set_coding_parameters
-
-    real_sp = ps.slice_parameters
-
-    def slice_parameters(state):
         if state["dwt_depth"] + state["dwt_depth_ho"] > LIMITS["max_dwt_total"]:
             raise OutOfScope("dwt depth")
         real_sp(state)
